@@ -8,8 +8,7 @@
      wf_entries, cid_ok  the same conditions for maps keyed by byte strings (non-empty, bytes < 256)
      lookup_cid_opt      (model) the chain loop of LookupCID, before the notdef fallback
      parent_opt f c      what the parent chain of f maps c to (None if nothing, or no parent)
-     omit_safe f es      no entry that SetMapping omits on the strength of the parent's NOTDEF answer is
-                         shadowed by f's own notdef entries
+
      agree_cid, agree_tu what maps.Collect keeps of All() (last pair per code) = lookup, for every code *)
 From Coq Require Import List NArith Permutation Lia ZifyN ZifyNat ZifyBool.
 From GoPdf.Base Require Import Bytes.
@@ -58,13 +57,10 @@ Proof. vm_compute. split; reflexivity. Qed.
 (* ---- SetMapping / LookupCID ---------------------------------------------- *)
 
 (* every code looks up to the mapped CID; an unmapped code gives what the parent chain maps it to,
-   and otherwise the notdef result of the file itself (LookupNotdefCID: own entries, then the parents').
-   Side condition omit_safe: an entry that SetMapping leaves out because Parent.LookupCID already gives its
-   CID *through the parent's notdef entries* must not be shadowed by the file's own notdef entries
-   (trivially true without parent or without own notdef entries: omit_safe_no_parent, omit_safe_no_own_notdef). *)
+   and otherwise the notdef result of the file itself (LookupNotdefCID: own entries, then the parents') *)
 Theorem setmapping_lookup :
   forall csr f data c,
-    prefix_free csr -> cid_data_ok csr data -> omit_safe f (code_entries csr data) ->
+    prefix_free csr -> cid_data_ok csr data ->
     lookup_cid (set_mapping csr f data) c =
     match assoc (code_entries csr data) c with
     | Some v => v
@@ -76,17 +72,25 @@ Theorem setmapping_lookup :
 Proof. exact setmapping_lookup_lemma. Qed.
 Print Assumptions setmapping_lookup.
 
-Theorem setmapping_lookup_mapped :
+(* every mapped code looks up to its CID, whatever the parent chain and the notdef entries are *)
+Theorem setmapping_lookup_mapped_full :
   forall csr f data code v,
-    prefix_free csr -> cid_data_ok csr data -> omit_safe f (code_entries csr data) -> In (code, v) data ->
+    prefix_free csr -> cid_data_ok csr data -> In (code, v) data ->
     lookup_cid (set_mapping csr f data) (append_code csr code) = v.
 Proof. exact setmapping_lookup_mapped_lemma. Qed.
+Print Assumptions setmapping_lookup_mapped_full.
+
+Theorem setmapping_lookup_mapped :
+  forall csr f data code v,
+    prefix_free csr -> cid_data_ok csr data -> In (code, v) data ->
+    lookup_cid (set_mapping csr f data) (append_code csr code) = v.
+Proof. exact setmapping_lookup_mapped_full. Qed.
 Print Assumptions setmapping_lookup_mapped.
 
 (* the same for maps keyed by byte strings (no codec involved) *)
 Theorem setmapping_lookup_bytes :
   forall csr f es c,
-    NoDup (map fst es) -> wf_entries N es -> cid_ok es -> omit_safe f es ->
+    NoDup (map fst es) -> wf_entries N es -> cid_ok es ->
     lookup_cid (set_mapping_bytes csr f es) c =
     match assoc es c with
     | Some v => v
@@ -98,45 +102,32 @@ Theorem setmapping_lookup_bytes :
 Proof. exact setmapping_lookup_bytes_lemma. Qed.
 Print Assumptions setmapping_lookup_bytes.
 
-(* without the side condition: what the chain loop of LookupCID finds, for every code *)
+(* what the chain loop of LookupCID (lookupMapped) finds: the map first, then the parent chain;
+   so an entry SetMapping omits is one the parent chain MAPS to the same CID *)
 Theorem setmapping_lookup_chain :
   forall csr f es c,
     NoDup (map fst es) -> wf_entries N es -> cid_ok es ->
     lookup_cid_opt (set_mapping_bytes csr f es) c =
     match assoc es c with
-    | Some v => match c_parent f with
-                | Some p => if lookup_cid p c =? v then lookup_cid_opt p c else Some v
-                | None => Some v
-                end
+    | Some v => Some v
     | None => parent_opt f c
     end.
-Proof. exact setmapping_lookup_bytes_weak. Qed.
+Proof. exact setmapping_lookup_chain_lemma. Qed.
 Print Assumptions setmapping_lookup_chain.
 
-(* the statement without omit_safe is false (finding cid-setmapping-omits-entry-shadowed-by-own-notdef):
-   parent without notdef entries, file with notdefrange <20>-<60> -> 7, map 50 -> 0: the entry is left out
-   because the parent answers 0, and the file then answers 7 *)
-Definition setmapping_lookup_mapped_full : Prop :=
-  forall csr f data code v,
-    prefix_free csr -> cid_data_ok csr data -> In (code, v) data ->
-    lookup_cid (set_mapping csr f data) (append_code csr code) = v.
+(* F34 (fixed in /repo): SetMapping as it was before omitted an entry also when Parent.LookupCID gave its CID
+   through the parent's NOTDEF entries; the file's own notdef entries then shadowed it: parent {41:1}, file with
+   notdefrange <20>-<60> -> 7 and the map {50:0, 51:9} answered 7 for <50> *)
+Theorem setmapping_lookup_prefix_refuted :
+  exists csr f es c v,
+    NoDup (map fst es) /\ wf_entries N es /\ cid_ok es /\ assoc es c = Some v /\
+    lookup_cid (set_mapping_bytes_prefix csr f es) c <> v.
+Proof. exact setmapping_prefix_refuted. Qed.
+Print Assumptions setmapping_lookup_prefix_refuted.
 
-Theorem setmapping_lookup_mapped_refuted :
-  exists csr f data code v,
-    prefix_free csr /\ cid_data_ok csr data /\ In (code, v) data /\
-    lookup_cid (set_mapping csr f data) (append_code csr code) <> v.
-Proof. exact setmapping_mapped_refuted. Qed.
-Print Assumptions setmapping_lookup_mapped_refuted.
-
-Theorem omit_safe_without_parent :
-  forall f es, c_parent f = None -> omit_safe f es.
-Proof. exact omit_safe_no_parent. Qed.
-Print Assumptions omit_safe_without_parent.
-
-Theorem omit_safe_without_own_notdef :
-  forall f es, c_nd_singles f = [] -> c_nd_ranges f = [] -> omit_safe f es.
-Proof. exact omit_safe_no_own_notdef. Qed.
-Print Assumptions omit_safe_without_own_notdef.
+Example f34_witness_now_right :
+  map (lookup_cid (set_mapping_bytes simple_csr shadow_file shadow_entries)) [[65]; [80]; [81]; [48]; [97]] = [1; 0; 9; 7; 0].
+Proof. exact shadow_now_right. Qed.
 
 (* All() of a file without parent is exactly the map: a permutation, so no duplicates, nothing extra *)
 Theorem all_eq :
@@ -319,16 +310,10 @@ Example ex_chain_lookup :
   map (lookup_cid child) [[65]; [66]; [67]; [80]; [81]] = [1; 5; 3; 9; 0].
 Proof. vm_compute. repeat split; reflexivity. Qed.
 
-(* omit_safe with own notdef entries that do not shadow: the child maps 50 -> 9 and 51 -> 0, its notdef
-   range <20>-<40> does not cover them *)
-Example ex_omit_safe :
+(* a file with own notdef entries and a parent: 50 -> 9 and 51 -> 0 are kept although the parent answers 0 for <51> *)
+Example ex_child_notdef_lookup :
   let parent := CFile ex_csr [([65], 1)] [] [] [] None in
-  let f := CFile [] [] [] [] [([32], [64], 7)] (Some parent) in
-  omit_safe f (code_entries ex_csr [(80, 9); (81, 0)]) /\
-  map (lookup_cid (set_mapping ex_csr f [(80, 9); (81, 0)])) [[65]; [80]; [81]; [48]; [82]] = [1; 9; 0; 7; 0].
-Proof.
-  cbn zeta. split; [|vm_compute; reflexivity].
-  intros p Hp c v Hin Ho Hv. cbn in Hp. inversion Hp; subst p. clear Hp.
-  vm_compute in Hin. destruct Hin as [H|[H|[]]]; inversion H as [[Hc Hvv]]; rewrite <- Hc, <- Hvv in *;
-    vm_compute in Hv |- *; congruence.
-Qed.
+  let f := CFile [] [] [] [] [([32], [96], 7)] (Some parent) in
+  c_singles (set_mapping ex_csr f [(65, 1); (80, 9); (81, 0)]) = [([80], 9); ([81], 0)] /\
+  map (lookup_cid (set_mapping ex_csr f [(65, 1); (80, 9); (81, 0)])) [[65]; [80]; [81]; [48]; [120]] = [1; 9; 0; 7; 0].
+Proof. vm_compute. split; reflexivity. Qed.
